@@ -28,10 +28,34 @@ Theorem request_creates_none_while_pg_pending : forall w r F w' e wr,
   fst (exec (st_phase (v_st w)) (apply_policies (v_spec w) (v_st w) r)) = KSync ->
   pg_admitted (v_pg w) = false -> w_pods w' = w_pods w.
 Proof.
-  intros w r F w' e wr H Hk Hpg. unfold step_req in H.
-  destruct (c_job (v_ctl w)); cbn [negb] in H; [|inversion H; reflexivity].
-  destruct (exec _ _) as [k u]. cbn in Hk. subst k.
-  eapply sync_creates_none_while_pg_pending; eauto.
+  intros w r F w' e wr H Hk Hpg. unfold step_req in H. unfold apply_policies in Hk.
+  set (w0 := with_delays w (clean_pod_delay (c_delay (v_ctl w)) r)) in *.
+  change (v_spec w0) with (v_spec w) in H. change (v_st w0) with (v_st w) in H.
+  destruct (c_job (v_ctl w0)); cbn [negb] in H; [|inversion H; reflexivity].
+  destruct (apply_policies_d (v_spec w) (v_st w) r) as [a delayed]. cbn [fst] in Hk.
+  destruct delayed; [inversion H; reflexivity|].
+  destruct (execute w0 a r F) as [[w1 e1] wr1] eqn:Hx. unfold execute in Hx.
+  change (v_st w0) with (v_st w) in Hx.
+  destruct (exec (st_phase (v_st w)) a) as [k u]. cbn in Hk. subst k.
+  assert (E : w_pods w1 = w_pods w0) by (eapply sync_creates_none_while_pg_pending; eauto).
+  destruct (negb e1 && negb (is_internal_action a)); inversion H; subst; cbn; exact E.
+Qed.
+
+(* a delayed action that expires and leads to syncJob: the same *)
+Theorem fire_creates_none_while_pg_pending : forall w w' e wr t c rest,
+  fire w = (w', e, wr) -> d_queue (c_delay (v_ctl w)) = (t, c) :: rest ->
+  fst (exec (st_phase (v_st w)) (dt_action t)) = KSync ->
+  pg_admitted (v_pg w) = false -> w_pods w' = w_pods w.
+Proof.
+  intros w w' e wr t c rest H Hq Hk Hpg. unfold fire in H. rewrite Hq in H.
+  set (w0 := with_delays w _) in *.
+  destruct c; [inversion H; reflexivity|].
+  destruct (c_job (v_ctl w0)); cbn [negb] in H; [|inversion H; reflexivity].
+  destruct (execute w0 (dt_action t) _ []) as [[w1 e1] wr1] eqn:Hx. unfold execute in Hx.
+  change (v_st w0) with (v_st w) in Hx.
+  destruct (exec (st_phase (v_st w)) (dt_action t)) as [k u]. cbn in Hk. subst k.
+  assert (E : w_pods w1 = w_pods w0) by (eapply sync_creates_none_while_pg_pending; eauto).
+  inversion H; subst; cbn; exact E.
 Qed.
 
 (* ---------- the PodGroup mirrors the spec ---------- *)
@@ -398,21 +422,21 @@ Definition delivery_orders : list (list op) :=
 
 Definition synced (w : world) : world :=
   mkWorld (w_spec w) (w_spec w) (w_st w) (w_st w) (w_pods w) (w_pods w) (w_pg w) (w_pg w)
-          (mkCtl true false (c_wdel (v_ctl w)) (c_wdel (v_ctl w)) (c_queue (v_ctl w))).
+          (mkCtl true false (c_wdel (v_ctl w)) (c_wdel (v_ctl w)) (c_queue (v_ctl w)) (drop_delays (c_delay (v_ctl w)))).
 
 (* in particular: pods delivered BEFORE the job (cache.AddPod creates a placeholder,
    cache.Add then does SetJob on it) are still there afterwards *)
 Theorem restart_any_delivery_order : forall w order,
   In order delivery_orders -> run w (ORestart :: order) = synced w.
 Proof.
-  intros w order H. destruct w as [ws vs wst vst wp vp wg vg [cj cd cw cv cq]].
+  intros w order H. destruct w as [ws vs wst vst wp vp wg vg [cj cd cw cv cq dl]].
   cbn in H. repeat (destruct H as [<-|H]; [reflexivity|]). destruct H.
 Qed.
 
 Theorem pods_before_job_are_kept : forall w,
   v_pods (run w [ORestart; OSyncPods; OSyncJob]) = w_pods w /\
   c_job (v_ctl (run w [ORestart; OSyncPods; OSyncJob])) = true.
-Proof. intros w. destruct w as [ws vs wst vst wp vp wg vg [cj cd cw cv cq]]. split; reflexivity. Qed.
+Proof. intros w. destruct w as [ws vs wst vst wp vp wg vg [cj cd cw cv cq dl]]. split; reflexivity. Qed.
 
 (* crash / partial failure of a sync at ANY point, controller restart, deliveries in ANY
    order, retry: the pod set converges to that of the undisturbed sync *)
@@ -452,3 +476,33 @@ Example podgroup_ok_example :
   create_or_update_pg (Some g0) (Some g0) sp xs 2 true = (Some g0, true) /\
   pg_update g0 sp xs 2 <> g0.
 Proof. vm_compute. repeat split; discriminate. Qed.
+
+(* ---------- createJobPod: a pod's derived fields are those of its own (task, index) ---------- *)
+Theorem create_job_pod_own_fields : forall ver retry t x i,
+  let p := create_job_pod ver retry t x i in
+  pf_task p = t_name t /\ pf_lbl_task p = t_name t /\ pf_idx p = i /\ pf_lbl_idx p = i /\
+  pf_version p = ver /\ pf_retry p = retry.
+Proof. intros. repeat split. Qed.
+
+(* building all missing replicas of a task in one pass: the k-th pod is the one of the k-th
+   index, whatever was built before or after it; distinct indices give distinct index markers *)
+Theorem create_task_pods_pointwise : forall ver retry t x idxs k i,
+  nth_error idxs k = Some i ->
+  nth_error (create_task_pods ver retry t x idxs) k = Some (create_job_pod ver retry t x i).
+Proof. intros. unfold create_task_pods. rewrite nth_error_map, H. reflexivity. Qed.
+
+Theorem create_task_pods_distinct : forall ver retry t x idxs,
+  NoDup idxs -> NoDup (map pf_idx (create_task_pods ver retry t x idxs)) /\
+                map pf_lbl_idx (create_task_pods ver retry t x idxs) = idxs.
+Proof.
+  intros. unfold create_task_pods. rewrite !map_map. cbn. rewrite map_id. auto.
+Qed.
+
+Theorem law_created_pods_accepts_model : forall ver retry t x idxs,
+  law_created_pods ver retry t x idxs (create_task_pods ver retry t x idxs) = true.
+Proof.
+  induction idxs as [|i idxs IH]; [reflexivity|].
+  unfold create_task_pods in *. cbn [map law_created_pods create_job_pod pf_task pf_idx pf_lbl_task pf_lbl_idx
+                                     pf_version pf_retry pf_user_lbl pf_user_ann].
+  rewrite Pos.eqb_refl, !Z.eqb_refl. cbn [andb]. exact IH.
+Qed.
